@@ -31,6 +31,7 @@ type c08Scn struct {
 	// reliable stream (no retransmission): lost ones are abandoned and have to be skipped with a
 	// FORWARD-TSN that the caller receives while it is already shutting down
 	PeerPR int `json:"peerpr,omitempty"`
+	PollMs int `json:"pollms,omitempty"` // readers poll with read deadlines of this length instead of blocking
 }
 
 func (x c08Scn) e1() vfE1 {
@@ -41,6 +42,7 @@ func (x c08Scn) e1() vfE1 {
 	for _, w := range x.Writes {
 		sc.Acts = append(sc.Acts, vfAct{AtMs: w[2], Side: w[0], Kind: "write", SID: 1 + w[0], Size: w[1], PPI: 53})
 	}
+	sc.PollMs = [2]int{x.PollMs, x.PollMs}
 	sc.Faults.PosFromMs, sc.Faults.PosRelBase = x.CallMs, true
 	if sc.Faults.PosFromMs == 0 {
 		sc.Faults.PosFromMs = 1
@@ -87,6 +89,9 @@ func genC08(rt *rapid.T) c08Scn {
 		x.CrossUs = rapid.SampledFrom([]int{0, 1, 5000, 10137, 15000, 20274, 30000}).Draw(rt, "crossus")
 	}
 	x.PostW = rapid.IntRange(0, 2).Draw(rt, "postw")
+	if rapid.IntRange(0, 2).Draw(rt, "poll") == 0 {
+		x.PollMs = rapid.SampledFrom([]int{5, 20, 100}).Draw(rt, "pollms")
+	}
 	if rapid.IntRange(0, 3).Draw(rt, "peerpr") == 0 {
 		x.PeerPR = rapid.IntRange(1, 4).Draw(rt, "npeerpr")
 	}
@@ -251,6 +256,9 @@ func runC08(t *testing.T, x c08Scn, verbose bool) vfCase {
 			}
 			// delivery: the peer's readers got exactly the pre-call messages, in order, then an error
 			s.o.settle(100 * time.Millisecond)
+			if x.PollMs > 0 {
+				s.o.settle(3 * time.Second) // a polling reader notices at its next poll (at most 1 s + 1.25 s away)
+			}
 			s.mu.Lock()
 			defer s.mu.Unlock()
 			var got []vfReadRec
